@@ -40,12 +40,13 @@ def exec_case(case: dict) -> dict:
 
 
 def gen_cases(seed: int, n: int, *, nphases=4, watch_p=0.0, features=None, nworkers=5, cfgs=None,
-              prefix="g") -> list[dict]:
+              prefix="g", user_edits=False, targets=False) -> list[dict]:
     cases = []
     for i in range(n):
         g = Gen(seed * 100003 + i, nworkers=nworkers, features=features)
         proj = g.project()
-        hist = g.history(proj, nphases=nphases, watch_p=watch_p, cfgs=cfgs)
+        hist = g.history(proj, nphases=nphases, watch_p=watch_p, cfgs=cfgs, user_edits=user_edits,
+                         targets=targets)
         cases.append({"tid": f"{prefix}{seed}-{i}", "project": proj, "phases": hist})
     return cases
 
